@@ -173,9 +173,8 @@ theorem C03_names (scan : Nat → ScanRes) (raw m : Module) (h : finish scan raw
   have hxxs : ∀ i : Nat, (m.xxs[i]?).map (·.name) = (raw.xxs[i]?).map fun x =>
       if (i : Int) < raw.smp then adjustString x.name else x.name := by
     intro i
-    have : m.xxs = (adjustNames raw).xxs.mapIdx fun i s =>
-        if (i : Int) < clampC raw.smp 0 maxSamples then
-          (match (adjustNames raw).xtra[i]? with | some x => (epilogueSmp s x).1 | none => s) else s := by
+    have : m.xxs = (adjustNames raw).xxs.mapIdx
+        (smpStepS (clampC raw.smp 0 maxSamples) (adjustNames raw).xtra) := by
       subst hm; rcases hcase with hc | ⟨_, _, hc⟩ <;> subst hc <;> rfl
     rw [this]
     simp only [adjustNames, List.getElem?_mapIdx, Option.map_map]
@@ -183,7 +182,7 @@ theorem C03_names (scan : Nat → ScanRes) (raw m : Module) (h : finish scan raw
     | none => rfl
     | some x =>
       simp only [Option.map_some, Function.comp]
-      rw [smpStep_name]
+      rw [smpStepS_name]
       split <;> rfl
   refine ⟨?_, by rw [hname, adjustString_length]⟩
   simp only [namesOK, Bool.and_eq_true]
@@ -270,6 +269,17 @@ theorem C03_helpers_track (trk : Int) (slotFree : Bool) (num rows : Int) (t : Tr
     refine ⟨by show 1 ≤ rows; omega, rfl, by omega, by omega, ?_⟩
     cases slotFree <;> simp_all
 
+theorem filterMap_id_length {α} (l : List (Option α)) (h : ∀ o ∈ l, o.isSome = true) :
+    (l.filterMap id).length = l.length := by
+  induction l with
+  | nil => rfl
+  | cons a rest ih =>
+    cases a with
+    | none => have := h none (by simp); simp at this
+    | some v =>
+      simp only [List.filterMap_cons, id, List.length_cons]
+      rw [ih (fun o ho => h o (List.mem_cons_of_mem _ ho))]
+
 /-- `libxmp_alloc_pattern_tracks` (`limit` = 256) and `…_long` (`limit` =
 32768): the pattern has `1 ≤ rows ≤ limit`, one index per channel, and every
 track it references was allocated with the same, positive number of rows inside
@@ -303,16 +313,14 @@ theorem C03_helpers_pattern (limit pat trk chn : Int) (slotFree : Bool) (free : 
           | some t => exact ⟨t, rfl⟩
         refine ⟨by show 1 ≤ rows; omega, by show rows ≤ limit; omega, by simp, ?_, ?_, ?_⟩
         · subst hts
-          rw [List.length_filterMap_eq_length_iff.mpr]
-          · simp
-          · intro o ho
-            exact hall o ho
+          rw [filterMap_id_length _ hall]
+          simp
         · intro t ht
           subst hts
           simp only [List.mem_filterMap, List.mem_map, List.mem_range, id] at ht
           obtain ⟨o, ⟨i, _, hi⟩, ho⟩ := ht
           subst ho
-          have := C03_helpers_track _ _ _ _ t hi.symm
+          have := C03_helpers_track _ _ _ _ t hi
           exact ⟨this.2.1, this.1⟩
         · intro t ht
           simp only [List.mem_map, List.mem_range] at ht
@@ -321,5 +329,77 @@ theorem C03_helpers_pattern (limit pat trk chn : Int) (slotFree : Bool) (free : 
           have := C03_helpers_track _ _ _ _ t' ht'
           exact ⟨this.2.2.1, this.2.2.2.1⟩
       · cases h
+
+
+/-! ## Non-vacuity: concrete instances of the hypotheses -/
+
+/-- a raw module as a loader could leave it: one 4-row pattern, orders
+`[0, 0xff, 0]`, restart position past the end, speed 0, BPM 5000 -/
+def exRaw (xxo : List Nat) (len : Int) : Module :=
+  { name := [0x41, 0x20, 0x07, 0x20, 0, 0x42, 0], pat := 1, trk := 1, chn := 1, ins := 1, smp := 1,
+    spd := 0, bpm := 5000, len := len, rst := 7, gvl := 0
+    xxp := some [some { rows := 4, index := [0] }], xxt := some [some { rows := 4 }]
+    xxi := [{ name := [0x58, 0], vol := 3, nsm := 1, sub := some [9]
+              aei := { on := true, fsus := true, floop := true, other := 0, npt := 2, sus := 1, sue := 5,
+                       lps := 0, lpe := 1, data := [0, 70, 10, -3] }
+              pei := { on := true, fsus := false, floop := false, other := 0, npt := 40, sus := 0, sue := 0,
+                       lps := 0, lpe := 0, data := [] }
+              fei := { on := false, fsus := false, floop := false, other := 8, npt := 0, sus := 0, sue := 0,
+                       lps := 0, lpe := 0, data := [] } }]
+    xxs := [{ name := [0], len := 100, lps := 0, lpe := 0, floop := false, fsloop := true, fsloopBidir := true,
+              other := 0, hasData := false }]
+    xtra := [{ sus := -4, sue := 300 }]
+    xxc := List.replicate 64 { pan := 0x80, vol := 0x40, flg := 0 }
+    xxo := xxo ++ List.replicate (256 - xxo.length) 0
+    insvol := false, volbase := 0x40, gvol := 0x40 }
+
+/-- `scan_module` behaviour: the first scan reaches order 1 and lasts 480 ms,
+the second one (from order 2) lasts 480 ms as well -/
+def exScan : Nat → ScanRes := fun k => if k = 0 then { marks := [1], time := 480 } else { marks := [], time := 480 }
+
+/-- the hypothesis of `C03_finish_wf` / `C03_sequences` is satisfiable, and the
+path really repairs what it is supposed to repair -/
+def exResult : Option Module := (finish exScan (exRaw [0, 0xff, 0] 3)).toOption
+
+example : exResult.map (fun m => (m.numSeq, m.seqData, m.seqCtl.take 3)) = some (2, [(0, 480), (2, 480)], [0, 0, 1]) := by
+  decide +kernel
+example : exResult.map (fun m => (m.rst, m.spd, m.bpm, m.name.take 5)) = some (0, 6, 1000, [0x41, 0, 0, 0, 0]) := by
+  decide +kernel
+example : exResult.map (fun m => m.xxi.map fun x => (x.vol, x.sub)) = some [(0x40, some [0x40])] := by
+  decide +kernel
+example : exResult.map (fun m => m.xxi.map fun x => (x.aei.on, x.aei.fsus, x.aei.floop, x.aei.data))
+    = some [(true, false, true, [0, 0x40, 10, 0])] := by
+  decide +kernel
+example : exResult.map (fun m => (m.xxi.map fun x => x.pei.on, m.xtra.map fun x => (x.sus, x.sue), WF m))
+    = some ([false], [(0, 100)], true) := by
+  decide +kernel
+
+/-- The F1 witness (orders `[0, 0xff, 0xff]`, the scan from order 2 finds no
+valid order and is discarded): order 2 ends up in no sequence.  Without the
+clean-up pass it would keep the id 1 of the discarded scan although there is
+only one sequence — the state that made `xmp_set_position(2)` index `p->scan[1]`
+past its allocation. -/
+example :
+    let scan : Nat → ScanRes := fun k => if k = 0 then { marks := [1], time := 480 } else { marks := [], time := -1 }
+    (finish scan (exRaw [0, 0xff, 0xff] 3)).toOption.map (fun m => (m.numSeq, m.seqCtl.take 3)) = some (1, [0, 0, 0xff])
+    ∧ ((seqLoop scan 3 4 { ctl := applyScan 3 0 0 ctlInit (scan 0), seq := 1, eps := [0], times := [480],
+                           calls := 1 }).ctl.take 3 = [0, 0, 1]) := by
+  decide +kernel
+
+/-- a module the gate refuses: pattern 0 references track 1 of 1 -/
+example :
+    (match finish exScan { exRaw [0] 1 with xxp := some [some { rows := 4, index := [1] }] } with
+     | .error .load => true | _ => false) = true := by
+  decide +kernel
+
+/-- the helpers: pattern 2 of a 4-channel module with 64 rows -/
+example :
+    (allocPatternTracks 256 4 16 4 true (fun _ => true) 2 64).map (fun r => (r.1.rows, r.1.index, r.2.map (·.rows)))
+      = some (64, [8, 9, 10, 11], [64, 64, 64, 64])
+    ∧ allocPatternTracks 256 4 16 4 true (fun _ => true) 2 257 = none
+    ∧ allocPatternTracks 256 4 16 4 true (fun _ => true) 2 0 = none
+    ∧ allocPatternTracks 32768 4 16 4 true (fun _ => true) 2 3000 ≠ none
+    ∧ allocTrack 16 true 3 0 = none := by
+  decide +kernel
 
 end Xmp.LoadPost
